@@ -27,6 +27,10 @@ def documents(secret_path):
     d["use_deep_acyclic"] = f'<svg {NS} viewBox="0 0 9 9"><defs>' + f'<g id="l0">{rect}</g>' + "".join(f'<g id="l{i}"><use xlink:href="#l{i-1}"/><use xlink:href="#l{i-1}" x="1"/></g>' for i in range(1, 7)) + '</defs><use xlink:href="#l6"/></svg>'
     d["clip_self"] = f'<svg {NS} viewBox="0 0 9 9"><clipPath id="c" clip-path="url(#c)">{rect}</clipPath><rect width="5" height="5" clip-path="url(#c)"/></svg>'
     d["clip_mutual"] = f'<svg {NS} viewBox="0 0 9 9"><clipPath id="c" clip-path="url(#d)">{rect}</clipPath><clipPath id="d" clip-path="url(#c)">{rect}</clipPath><rect width="5" height="5" clip-path="url(#c)"/></svg>'
+    d["clip_children_point_back_twice"] = f'<svg {NS} viewBox="0 0 9 9"><clipPath id="c"><rect width="2" height="2" clip-path="url(#c)"/><rect x="1" width="2" height="2" clip-path="url(#c)"/></clipPath><rect width="5" height="5" clip-path="url(#c)"/></svg>'
+    d["clip_children_point_at_each_other"] = f'<svg {NS} viewBox="0 0 9 9"><clipPath id="c"><rect width="2" height="2" clip-path="url(#d)"/><rect x="1" width="2" height="2" clip-path="url(#d)"/></clipPath><clipPath id="d"><rect width="2" height="2" clip-path="url(#c)"/><rect x="1" width="2" height="2" clip-path="url(#c)"/></clipPath><rect width="5" height="5" clip-path="url(#c)"/></svg>'
+    d["style_unclosed_quote"] = f'<svg {NS} viewBox="0 0 9 9"><rect width="5" height="5" style="fill:red;font-family:&apos;Noto Sans"/></svg>'
+    d["style_semicolon_in_quotes"] = f'<svg {NS} viewBox="0 0 9 9"><g style="font-family:&quot;A;B&quot;;fill:red"><rect width="5" height="5"/></g></svg>'
     d["clip_dangling"] = f'<svg {NS} viewBox="0 0 9 9"><rect width="5" height="5" clip-path="url(#nope)"/></svg>'
     grad = lambda i, href: f'<linearGradient id="{i}" xlink:href="#{href}"><stop offset="0" stop-color="red"/></linearGradient>'
     d["grad_self"] = f'<svg {NS} viewBox="0 0 9 9"><defs>{grad("g", "g")}</defs><rect width="5" height="5" fill="url(#g)"/></svg>'
